@@ -414,7 +414,7 @@ MUTANTS = [
     Mut("page-down-fallback-tries-candidate-off-the-top", _L, "ListBox._keypress_page_down", "            if row_offset + rows <= 0:  # nor one that is off the top edge entirely\n                continue\n", "", "GUARD|widget.listbox.ListBox._keypress_page_down|_keypress_page_down: candidate offset row_offset not shown on the page"),
     Mut("page-up-fallback-edge-off-by-one", _L, "ListBox._keypress_page_up", "            if rows + row_offset <= 0:\n                snap_rows -= (-row_offset) - (rows - 1)", "            if rows + row_offset < 0:\n                snap_rows -= (-row_offset) - (rows - 1)", "GUARD|widget.listbox.ListBox._keypress_page_up|_keypress_page_up: candidate offset row_offset not shown on the page"),
     Mut("twin-page-down-candidate-test-rearranged", _L, "ListBox._keypress_page_down", "            if row_offset + rows <= 0:\n                # scrolled off", "            if rows <= -row_offset:\n                # scrolled off", twin=True),
-    Mut("listbox-trim-bottom-before-offset-final", _L, "ListBox.calculate_visible", "        focus_rows = focus_widget.rows((maxcol,), True)\n\n        # 2. collect the widgets above the focus", "        focus_rows = focus_widget.rows((maxcol,), True)\n        trim_bottom = max(focus_rows + offset_rows - inset_rows - maxrow, 0)\n\n        # 2. collect the widgets above the focus", "SIB|widget.listbox.ListBox.calculate_visible|complementary quantities computed from different states", also=[("        trim_bottom = max(focus_rows + offset_rows - inset_rows - maxrow, 0)\n\n        # 3. collect", "        # 3. collect")]),
+    Mut("listbox-trim-bottom-before-offset-final", _L, "ListBox.calculate_visible", "        focus_rows = focus_widget.rows((maxcol,), True)\n\n        # items inside the window", "        focus_rows = focus_widget.rows((maxcol,), True)\n        trim_bottom = max(focus_rows + offset_rows - inset_rows - maxrow, 0)\n\n        # items inside the window", "SIB|widget.listbox.ListBox.calculate_visible|complementary quantities computed from different states", also=[("        trim_bottom = max(focus_rows + offset_rows - inset_rows - maxrow, 0)\n\n        # 3. collect", "        # 3. collect")]),
     Mut("listbox-mouse-fill-above-not-reversed", _L, "ListBox.mouse_event", "        fill_above.reverse()  # fill_above is in bottom-up order\n", "", "SIB|widget.listbox.ListBox.mouse_event|fill_above used in screen order without reverse()"),
     Mut("listbox-set-focus-no-empty-test", _L, "ListBox.set_focus", "        if focus_widget is None:\n            raise IndexError(\"Can't set focus, ListBox is empty\")\n", "", "GUARD|widget.listbox.ListBox.set_focus|empty ListBox accepts a focus position"),
     Mut("listbox-mouse-focus-any-button", _L, "ListBox.mouse_event", "        if is_mouse_press(event) and button == 1 and w.selectable():", "        if is_mouse_press(event) and w.selectable():", "PASS|widget.listbox.ListBox.mouse_event|mouse focus change without button 1"),
